@@ -17,7 +17,7 @@ fn check(a: &B, b: &B) -> Ordering {
 macro_rules! harness {
     ($name:ident, $body:expr) => {
         #[kani::proof]
-        #[kani::unwind(13)]
+        #[kani::unwind(5)]
         #[kani::stub(crate::parser::parse_value, no_parse_value)]
         #[kani::stub(std::ptr::drop_in_place, noop_drop)]
         fn $name() {
@@ -192,7 +192,7 @@ fn lens() {
 //@ bounds: <= 3 elements
 //@ stubs: parse_value -> panic | drop_in_place -> no-op
 #[kani::proof]
-#[kani::unwind(13)]
+#[kani::unwind(5)]
 #[kani::stub(crate::parser::parse_value, no_parse_value)]
 #[kani::stub(std::ptr::drop_in_place, noop_drop)]
 fn c04_lengths() {
@@ -268,7 +268,7 @@ harness!(c04_triple_mixed, triple((K_NUM, 2), (K_NUM, 9), (K_STR, 1)));
 //@ desc: vacuity twin: two arbitrary 2-byte strings claimed never equal — must be refuted
 //@ fns: compare
 #[kani::proof]
-#[kani::unwind(13)]
+#[kani::unwind(5)]
 #[kani::stub(crate::parser::parse_value, no_parse_value)]
 #[kani::stub(std::ptr::drop_in_place, noop_drop)]
 fn c04_twin_must_fail() {
